@@ -690,7 +690,7 @@ class Gen:
         for raw in unit.raw_items:
             parts.append(raw)
         parts.append('// ---- specification text (hand-written: spec fns and lemmas, no executable code) ----')
-        parts.append(unit.spec)
+        parts.append(dedupe_spec(unit.spec))
         for lem in unit.nra:
             parts.append(lem.verus())
         # group functions by impl header
@@ -745,6 +745,28 @@ class Gen:
             text = text.replace('/*LITS*/', literal_axioms(text, text.index('pub mod unit {')))
             text = text.replace('/*USE-LITS*/', 'use crate::lits::*;')
         return text
+
+
+def dedupe_spec(text):
+    """specification vocabularies are assembled by concatenation; a definition that arrives twice (same text) is kept once"""
+    items_, cur, depth = [], [], 0
+    for line in text.split('\n'):
+        cur.append(line)
+        depth += line.count('{') - line.count('}')
+        st = line.strip()
+        if depth == 0 and st and not st.startswith('//') and not st.startswith('#[') and (st.endswith('}') or st.endswith(';')):
+            items_.append('\n'.join(cur))
+            cur = []
+    if cur:
+        items_.append('\n'.join(cur))
+    seen, out = set(), []
+    for it in items_:
+        key = ' '.join(it.split())
+        if key and key in seen:
+            continue
+        seen.add(key)
+        out.append(it)
+    return '\n'.join(out)
 
 
 def real_expr_of_const_init(init):
